@@ -448,6 +448,11 @@ def run(prop, tier):
     tier_shrinks = os.environ.get("VERIF_NO_SHRINK") is None
     for b in ps["broken"]:
         ck.log("PROOF SIDE BROKEN: " + b)
+    if prop == "C05":
+        # compile the TSC harness while the H2 variants build and run (tools/tsc_stream.py picks up the cached binary)
+        import threading
+        import tsc_stream
+        threading.Thread(target=lambda: vlib.build_harness(tsc_stream.HARNESS[0], tsc_stream.HARNESS[1], extra_flags=tsc_stream.HARNESS[2]), daemon=True).start()
     res = collect(ck, tier, ex)
     if "build_error" in res:
         ck.violation("harness_build", res["build_error"], "harness h2_backend no longer compiles against the current tree (correspondence broken): " + res["build_error"][-300:], no_input=True)
@@ -523,6 +528,12 @@ def run(prop, tier):
         # the sink's half of C06: the real stream sinks' write/flush protocol vs FileSink.step + read-back oracle (tools/filesink_stream.py)
         import filesink_stream
         filesink = filesink_stream.run(ck, tier, ps)
+
+    tsc = None
+    if prop == "C05":
+        # the TSC -> epoch conversion: the real RdtscClock vs Tsc.timeSinceEpoch / resync + conversion oracles (tools/tsc_stream.py)
+        import tsc_stream
+        tsc = tsc_stream.run(ck, tier, ps)
 
     sinkreg = None
     if prop == "C17":
@@ -613,6 +624,8 @@ def run(prop, tier):
         ck.cov["sink_registry_stream"] = sinkreg
     if filesink is not None:
         ck.cov["stream_sink_flush_stream"] = filesink
+    if tsc is not None:
+        ck.cov["tsc_conversion_stream"] = tsc
     return ck.finish()
 
 
@@ -649,6 +662,9 @@ def replay(prop, path):
     if "sinkreg" in open(path).readline():
         import sinkreg_stream
         return sinkreg_stream.replay(prop, path)
+    if "h3_tsc" in open(path).readline():
+        import tsc_stream
+        return tsc_stream.replay(prop, path)
     if open(path).readline().startswith("# h1_reg"):
         import reg_stream
         return reg_stream.replay(prop, path)
